@@ -2,7 +2,7 @@ SPECIFICATION Spec
 CONSTANTS
   RepAll = TRUE
   Mode = "mc"
-  MaxNodes = 8
+  MaxNodes = 5
   Enabled = {"Module", "Fn", "Var", "Set", "Call", "BCall", "Loop", "Goto", "Label", "Deref", "TyPrim"}
   FlagSets <- FlagSets_none
   VarForms <- VarForms_all
